@@ -263,6 +263,13 @@ func RunCheck(opts CheckOpts) int {
 			if ct == nil || !ct.Lemma || ct.Trusted || !relevant(ct, opts.Prop) {
 				continue
 			}
+			own := false
+			for _, cl := range ct.Ensures {
+				own = own || hasTag(cl.Tags, opts.Prop)
+			}
+			if !own {
+				continue // (for C18 every unit is relevant; only lemmas that state this property count)
+			}
 			work = append(work, k)
 		}
 		sort.Strings(work)
